@@ -34,6 +34,7 @@ func main() {
 	dump := flag.String("dump", "", "dump the query of the obligation with this name")
 	extra := flag.String("extra", "", "comma-separated extra module dirs to load (rendered parsers)")
 	replayDir := flag.String("replays", "/verif/replays", "where replay files go")
+	harnessDir := flag.String("harness", "/verif/harness", "run-time contract harnesses (bounded search for failing inputs)")
 	knownPath := flag.String("known", "/verif/known_findings.txt", "known findings file")
 	basePath := flag.String("baseline", "/verif/baseline/obligations.json", "accepted baseline of proved obligations")
 	writeBase := flag.String("write-baseline", "", "write the names of proved obligations to this file (merging)")
@@ -139,7 +140,7 @@ func main() {
 	solveAll(func(o *Obligation) *Ctx { return ctxOf[o] }, all, solveCfg{timeout: timeout, dir: *work, jobs: 5, seed: *seed})
 	solveS := time.Since(t0).Seconds() - loadS - genS
 
-	rep := &Report{Prop: *prop, Tier: *tier, Seed: *seed, Results: results, Obls: all, LoadS: loadS, GenS: genS, SolveS: solveS, Wall: time.Since(t0).Seconds(), V: v, ReplayDir: *replayDir, Repo: *repo}
+	rep := &Report{Prop: *prop, Tier: *tier, Seed: *seed, Results: results, Obls: all, LoadS: loadS, GenS: genS, SolveS: solveS, Wall: time.Since(t0).Seconds(), V: v, ReplayDir: *replayDir, HarnessDir: *harnessDir, Repo: *repo}
 	rep.Known = loadKnown(*knownPath)
 	rep.Baseline = loadBaseline(*basePath)
 	code := rep.finish(*evid, *verbose)
